@@ -1,0 +1,193 @@
+//go:build verif
+// +build verif
+
+package joinserver
+
+// Contracts for /verif (tool: gov); comments only.
+//
+// C16 (partial): the pure steps of the join-server task pipelines.  The HTTP handler, encoding/json,
+// logrus and the configuration callbacks are outside the verifier's reach (DESIGN.md §12).
+//
+// Session keys (LoRaWAN 1.1 §6.2.5, 1.0.x §6.2.5):
+//   OptNeg set:   K = aes128_encrypt(root, typ | JoinNonce | JoinEUI | DevNonce | pad16)
+//   OptNeg unset: K = aes128_encrypt(root, typ | JoinNonce(AppNonce) | NetID | DevNonce | pad16)
+//   (all fields little endian), typ 1 = FNwkSIntKey / NwkSKey, 2 = AppSKey, 3 = SNwkSIntKey, 4 = NwkSEncKey
+//   JSIntKey = aes128_encrypt(NwkKey, 0x06 | DevEUI | pad16), JSEncKey = aes128_encrypt(NwkKey, 0x05 | DevEUI | pad16)
+// the error values are assigned by package initialisation only (checked by the engine's init-only scan)
+//@ immutable ErrInvalidMIC ErrDevEUINotFound
+//@ spec skey11(key, typ, jn, je, dn) = aes_enc(key, typ, uint8(jn), uint8(jn >> 8), uint8(jn >> 16), je[7], je[6], je[5], je[4], je[3], je[2], je[1], je[0], uint8(dn), uint8(dn >> 8), 0, 0)
+//@ spec skey10(key, typ, jn, nid, dn) = aes_enc(key, typ, uint8(jn), uint8(jn >> 8), uint8(jn >> 16), nid[2], nid[1], nid[0], uint8(dn), uint8(dn >> 8), 0, 0, 0, 0, 0, 0, 0)
+//@ spec jskey(key, typ, de) = aes_enc(key, typ, de[7], de[6], de[5], de[4], de[3], de[2], de[1], de[0], 0, 0, 0, 0, 0, 0, 0)
+
+//@ func getSKey
+//@   props C16
+//@   modifies nothing
+//@   ensures ok: (err == nil) == (uint32(joinNonce) < 16777216)
+//@   ensures key11: err == nil && optNeg ==> forall k int :: 0 <= k && k < 16 ==> result0[k] == skey11(nwkKey, typ, joinNonce, joinEUI, devNonce)[k]
+//@   ensures key10: err == nil && !optNeg ==> forall k int :: 0 <= k && k < 16 ==> result0[k] == skey10(nwkKey, typ, joinNonce, netID, devNonce)[k]
+//@ func getJSKey
+//@   props C16
+//@   modifies nothing
+//@   ensures ok: err == nil
+//@   ensures key: forall k int :: 0 <= k && k < 16 ==> result0[k] == jskey(nwkKey, typ, devEUI)[k]
+
+//@ func getFNwkSIntKey
+//@   props C16
+//@   modifies nothing
+//@   ensures ok: (err == nil) == (uint32(joinNonce) < 16777216)
+//@   ensures key11: err == nil && optNeg ==> forall k int :: 0 <= k && k < 16 ==> result0[k] == skey11(nwkKey, 1, joinNonce, joinEUI, devNonce)[k]
+//@   ensures key10: err == nil && !optNeg ==> forall k int :: 0 <= k && k < 16 ==> result0[k] == skey10(nwkKey, 1, joinNonce, netID, devNonce)[k]
+//@ func getAppSKey
+//@   props C16
+//@   modifies nothing
+//@   ensures ok: (err == nil) == (uint32(joinNonce) < 16777216)
+//@   ensures key11: err == nil && optNeg ==> forall k int :: 0 <= k && k < 16 ==> result0[k] == skey11(nwkKey, 2, joinNonce, joinEUI, devNonce)[k]
+//@   ensures key10: err == nil && !optNeg ==> forall k int :: 0 <= k && k < 16 ==> result0[k] == skey10(nwkKey, 2, joinNonce, netID, devNonce)[k]
+//@ func getSNwkSIntKey
+//@   props C16
+//@   modifies nothing
+//@   ensures ok: (err == nil) == (uint32(joinNonce) < 16777216)
+//@   ensures key11: err == nil && optNeg ==> forall k int :: 0 <= k && k < 16 ==> result0[k] == skey11(nwkKey, 3, joinNonce, joinEUI, devNonce)[k]
+//@   ensures key10: err == nil && !optNeg ==> forall k int :: 0 <= k && k < 16 ==> result0[k] == skey10(nwkKey, 3, joinNonce, netID, devNonce)[k]
+//@ func getNwkSEncKey
+//@   props C16
+//@   modifies nothing
+//@   ensures ok: (err == nil) == (uint32(joinNonce) < 16777216)
+//@   ensures key11: err == nil && optNeg ==> forall k int :: 0 <= k && k < 16 ==> result0[k] == skey11(nwkKey, 4, joinNonce, joinEUI, devNonce)[k]
+//@   ensures key10: err == nil && !optNeg ==> forall k int :: 0 <= k && k < 16 ==> result0[k] == skey10(nwkKey, 4, joinNonce, netID, devNonce)[k]
+//@ func getJSIntKey
+//@   props C16
+//@   modifies nothing
+//@   ensures ok: err == nil
+//@   ensures key: forall k int :: 0 <= k && k < 16 ==> result0[k] == jskey(nwkKey, 6, devEUI)[k]
+//@ func getJSEncKey
+//@   props C16
+//@   modifies nothing
+//@   ensures ok: err == nil
+//@   ensures key: forall k int :: 0 <= k && k < 16 ==> result0[k] == jskey(nwkKey, 5, devEUI)[k]
+
+// join flow: the OptNeg bit of the DLSettings the network server asks for selects the derivation, and with
+// OptNeg the AppSKey is derived from the AppKey, without it from the NwkKey (the 1.0 "AppKey")
+//@ func setSessionKeys
+//@   props C16
+//@   requires ctx != nil
+//@   modifies ctx.fNwkSIntKey, ctx.appSKey, ctx.sNwkSIntKey, ctx.nwkSEncKey
+//@   let on = ctx.joinReqPayload.DLSettings.OptNeg
+//@   ensures ok: (err == nil) == (uint32(ctx.joinNonce) < 16777216)
+//@   ensures join11: err == nil && on ==> forall k int :: 0 <= k && k < 16 ==> ctx.fNwkSIntKey[k] == skey11(ctx.deviceKeys.NwkKey, 1, ctx.joinNonce, ctx.joinEUI, ctx.devNonce)[k] && ctx.appSKey[k] == skey11(ctx.deviceKeys.AppKey, 2, ctx.joinNonce, ctx.joinEUI, ctx.devNonce)[k] && ctx.sNwkSIntKey[k] == skey11(ctx.deviceKeys.NwkKey, 3, ctx.joinNonce, ctx.joinEUI, ctx.devNonce)[k] && ctx.nwkSEncKey[k] == skey11(ctx.deviceKeys.NwkKey, 4, ctx.joinNonce, ctx.joinEUI, ctx.devNonce)[k]
+//@   ensures join10: err == nil && !on ==> forall k int :: 0 <= k && k < 16 ==> ctx.fNwkSIntKey[k] == skey10(ctx.deviceKeys.NwkKey, 1, ctx.joinNonce, ctx.netID, ctx.devNonce)[k] && ctx.appSKey[k] == skey10(ctx.deviceKeys.NwkKey, 2, ctx.joinNonce, ctx.netID, ctx.devNonce)[k]
+
+//@ func setJoinNonce
+//@   props C16
+//@   requires ctx != nil
+//@   modifies ctx.joinNonce
+//@   ensures ok: (err == nil) == (ctx.deviceKeys.JoinNonce <= 16777215)
+//@   ensures value: err == nil ==> uint32(ctx.joinNonce) == uint32(ctx.deviceKeys.JoinNonce)
+
+// a join-request whose MIC does not verify under the device's NwkKey is answered with ErrInvalidMIC
+// (mapped to MICFailed by the wrapper), one whose MIC verifies passes
+//@ func validateMIC
+//@   props C16
+//@   requires ctx != nil
+//@   modifies nothing
+//@   requires typed-nil: istype(ctx.phyPayload.MACPayload, "*lorawan.JoinRequestPayload") ==> as(ctx.phyPayload.MACPayload, "*lorawan.JoinRequestPayload") != nil
+//@   ensures micfailed: err != nil && callres("(PHYPayload).ValidateUplinkJoinMIC", 0)[1] == nil ==> err == ErrInvalidMIC
+//@   ensures accepted: (err == nil) == (callres("(PHYPayload).ValidateUplinkJoinMIC", 0)[1] == nil && callres("(PHYPayload).ValidateUplinkJoinMIC", 0)[0])
+
+//@ func lemmaC16_join_keys
+//@   props C16
+//@   inlines backend/joinserver.setJoinContext (*PHYPayload).UnmarshalBinary
+//@ func lemmaC16_rejoin_keys
+//@   props C16
+//@   inlines backend/joinserver.setRejoinContext (*PHYPayload).UnmarshalBinary
+
+// every answer mirrors sender, receiver and transaction id of the request, whatever the pipeline did.
+// handleJoinRequest / handleRejoinRequest iterate over a slice of task functions (dynamic calls): they are NOT
+// verified as a whole; the wrappers are checked against an unconstrained result of them.
+//@ func handleJoinRequest
+//@   trusted
+//@   modifies nothing
+//@ func handleRejoinRequest
+//@   trusted
+//@   modifies nothing
+//@ func handleJoinRequestWrapper
+//@   props C16
+//@   modifies nothing
+//@   ensures mirror: result.BasePayloadResult.BasePayload.SenderID == joinReqPL.BasePayload.ReceiverID && result.BasePayloadResult.BasePayload.ReceiverID == joinReqPL.BasePayload.SenderID && result.BasePayloadResult.BasePayload.TransactionID == joinReqPL.BasePayload.TransactionID
+//@   ensures type: result.BasePayloadResult.BasePayload.MessageType == "JoinAns" && result.BasePayloadResult.BasePayload.ProtocolVersion == "1.0"
+//@   ensures failed: callres("backend/joinserver.handleJoinRequest", 0)[1] != nil ==> result.BasePayloadResult.Result.ResultCode == "MICFailed" || result.BasePayloadResult.Result.ResultCode == "Other"
+//@ func handleRejoinRequestWrapper
+//@   props C16
+//@   modifies nothing
+//@   ensures mirror: result.BasePayloadResult.BasePayload.SenderID == rejoinReqPL.BasePayload.ReceiverID && result.BasePayloadResult.BasePayload.ReceiverID == rejoinReqPL.BasePayload.SenderID && result.BasePayloadResult.BasePayload.TransactionID == rejoinReqPL.BasePayload.TransactionID
+//@   ensures type: result.BasePayloadResult.BasePayload.MessageType == "RejoinAns" && result.BasePayloadResult.BasePayload.ProtocolVersion == "1.0"
+//@   ensures failed: callres("backend/joinserver.handleRejoinRequest", 0)[1] != nil ==> result.BasePayloadResult.Result.ResultCode == "MICFailed" || result.BasePayloadResult.Result.ResultCode == "Other"
+
+// the answer: Success, the envelope set selected by OptNeg (1.1: AppSKey + FNwkSIntKey / SNwkSIntKey / NwkSEncKey,
+// 1.0: AppSKey + NwkSKey carrying the FNwkSIntKey = NwkSKey), keys in clear when no KEK label / KEK is configured,
+// labelled with the configured label otherwise (the RFC 3394 wrapping itself is third-party code: assumed total)
+//@ spec nokek(label, kek) = label == "" || len(kek) == 0
+// what the device does with the answer (no CFList): aes128_encrypt(NwkKey, ciphertext block) gives back the
+// join-accept fields the network server asked for and the configured JoinNonce
+//@ spec devdec(key, b) = aes_enc(key, b[1], b[2], b[3], b[4], b[5], b[6], b[7], b[8], b[9], b[10], b[11], b[12], b[13], b[14], b[15], b[16])
+//@ func createJoinAnsPayload
+//@   props C16
+//@   requires ctx != nil
+//@   inlines (*PHYPayload).EncryptJoinAcceptPayload (PHYPayload).MarshalBinary (JoinAcceptPayload).MarshalBinary (DataPayload).MarshalBinary (*DataPayload).MarshalBinary
+//@   let jn = ctx.joinNonce
+//@   let nid = ctx.netID
+//@   let da = ctx.joinReqPayload.DevAddr
+//@   let dl = ctx.joinReqPayload.DLSettings
+//@   let rxd = ctx.joinReqPayload.RxDelay
+//@   let nk = ctx.deviceKeys.NwkKey
+//@   ensures accept-len: err == nil && len(ctx.joinReqPayload.CFList) == 0 ==> len(ctx.joinAnsPayload.PHYPayload) == 17 && ctx.joinAnsPayload.PHYPayload[0] == 0x20
+//@   ensures accept-fields: err == nil && len(ctx.joinReqPayload.CFList) == 0 ==> devdec(nk, ctx.joinAnsPayload.PHYPayload)[0] == uint8(jn) && devdec(nk, ctx.joinAnsPayload.PHYPayload)[1] == uint8(jn >> 8) && devdec(nk, ctx.joinAnsPayload.PHYPayload)[2] == uint8(jn >> 16) && devdec(nk, ctx.joinAnsPayload.PHYPayload)[3] == nid[2] && devdec(nk, ctx.joinAnsPayload.PHYPayload)[4] == nid[1] && devdec(nk, ctx.joinAnsPayload.PHYPayload)[5] == nid[0] && devdec(nk, ctx.joinAnsPayload.PHYPayload)[6] == da[3] && devdec(nk, ctx.joinAnsPayload.PHYPayload)[7] == da[2] && devdec(nk, ctx.joinAnsPayload.PHYPayload)[8] == da[1] && devdec(nk, ctx.joinAnsPayload.PHYPayload)[9] == da[0] && devdec(nk, ctx.joinAnsPayload.PHYPayload)[10] == dl.RX2DataRate | dl.RX1DROffset<<4 | b2u8(dl.OptNeg)<<7 && devdec(nk, ctx.joinAnsPayload.PHYPayload)[11] == uint8(rxd)
+//@   modifies ctx.joinAnsPayload
+//@   let on = ctx.joinReqPayload.DLSettings.OptNeg
+//@   ensures success: err == nil ==> ctx.joinAnsPayload.BasePayloadResult.Result.ResultCode == "Success"
+//@   ensures envelopes11: err == nil && on ==> ctx.joinAnsPayload.AppSKey != nil && ctx.joinAnsPayload.FNwkSIntKey != nil && ctx.joinAnsPayload.SNwkSIntKey != nil && ctx.joinAnsPayload.NwkSEncKey != nil && ctx.joinAnsPayload.NwkSKey == nil
+//@   ensures envelopes10: err == nil && !on ==> ctx.joinAnsPayload.AppSKey != nil && ctx.joinAnsPayload.NwkSKey != nil && ctx.joinAnsPayload.FNwkSIntKey == nil && ctx.joinAnsPayload.SNwkSIntKey == nil && ctx.joinAnsPayload.NwkSEncKey == nil
+//@   ensures clear-as: err == nil && nokek(ctx.asKEKLabel, ctx.asKEK) ==> len(ctx.joinAnsPayload.AppSKey.AESKey) == 16 && forall k int :: 0 <= k && k < 16 ==> ctx.joinAnsPayload.AppSKey.AESKey[k] == ctx.appSKey[k]
+//@   ensures clear-ns11: err == nil && on && nokek(ctx.nsKEKLabel, ctx.nsKEK) ==> forall k int :: 0 <= k && k < 16 ==> ctx.joinAnsPayload.FNwkSIntKey.AESKey[k] == ctx.fNwkSIntKey[k] && ctx.joinAnsPayload.SNwkSIntKey.AESKey[k] == ctx.sNwkSIntKey[k] && ctx.joinAnsPayload.NwkSEncKey.AESKey[k] == ctx.nwkSEncKey[k]
+//@   ensures clear-ns10: err == nil && !on && nokek(ctx.nsKEKLabel, ctx.nsKEK) ==> forall k int :: 0 <= k && k < 16 ==> ctx.joinAnsPayload.NwkSKey.AESKey[k] == ctx.fNwkSIntKey[k]
+//@   ensures label-as: err == nil && !nokek(ctx.asKEKLabel, ctx.asKEK) ==> ctx.joinAnsPayload.AppSKey.KEKLabel == ctx.asKEKLabel
+//@   ensures label-ns11: err == nil && on && !nokek(ctx.nsKEKLabel, ctx.nsKEK) ==> ctx.joinAnsPayload.FNwkSIntKey.KEKLabel == ctx.nsKEKLabel && ctx.joinAnsPayload.SNwkSIntKey.KEKLabel == ctx.nsKEKLabel && ctx.joinAnsPayload.NwkSEncKey.KEKLabel == ctx.nsKEKLabel
+//@   ensures label-ns10: err == nil && !on && !nokek(ctx.nsKEKLabel, ctx.nsKEK) ==> ctx.joinAnsPayload.NwkSKey.KEKLabel == ctx.nsKEKLabel
+//@ func createRejoinAnsPayload
+//@   props C16
+//@   requires ctx != nil
+//@   inlines (*PHYPayload).EncryptJoinAcceptPayload (PHYPayload).MarshalBinary (JoinAcceptPayload).MarshalBinary (DataPayload).MarshalBinary (*DataPayload).MarshalBinary backend/joinserver.getJSEncKey backend/joinserver.getJSKey
+//@   let jn = ctx.joinNonce
+//@   let nid = ctx.netID
+//@   let da = ctx.rejoinReqPayload.DevAddr
+//@   let dl = ctx.rejoinReqPayload.DLSettings
+//@   let rxd = ctx.rejoinReqPayload.RxDelay
+//@   let ek = jskey(ctx.deviceKeys.NwkKey, 5, ctx.devEUI)
+//@   ensures accept-len: err == nil && len(ctx.rejoinReqPayload.CFList) == 0 ==> len(ctx.rejoinAnsPaylaod.PHYPayload) == 17 && ctx.rejoinAnsPaylaod.PHYPayload[0] == 0x20
+//@   ensures accept-fields: err == nil && len(ctx.rejoinReqPayload.CFList) == 0 ==> devdec(ek, ctx.rejoinAnsPaylaod.PHYPayload)[0] == uint8(jn) && devdec(ek, ctx.rejoinAnsPaylaod.PHYPayload)[1] == uint8(jn >> 8) && devdec(ek, ctx.rejoinAnsPaylaod.PHYPayload)[2] == uint8(jn >> 16) && devdec(ek, ctx.rejoinAnsPaylaod.PHYPayload)[3] == nid[2] && devdec(ek, ctx.rejoinAnsPaylaod.PHYPayload)[4] == nid[1] && devdec(ek, ctx.rejoinAnsPaylaod.PHYPayload)[5] == nid[0] && devdec(ek, ctx.rejoinAnsPaylaod.PHYPayload)[6] == da[3] && devdec(ek, ctx.rejoinAnsPaylaod.PHYPayload)[7] == da[2] && devdec(ek, ctx.rejoinAnsPaylaod.PHYPayload)[8] == da[1] && devdec(ek, ctx.rejoinAnsPaylaod.PHYPayload)[9] == da[0] && devdec(ek, ctx.rejoinAnsPaylaod.PHYPayload)[10] == dl.RX2DataRate | dl.RX1DROffset<<4 | b2u8(dl.OptNeg)<<7 && devdec(ek, ctx.rejoinAnsPaylaod.PHYPayload)[11] == uint8(rxd)
+//@   modifies ctx.rejoinAnsPaylaod
+//@   ensures success: err == nil ==> ctx.rejoinAnsPaylaod.BasePayloadResult.Result.ResultCode == "Success"
+//@   ensures envelopes: err == nil ==> ctx.rejoinAnsPaylaod.AppSKey != nil && ctx.rejoinAnsPaylaod.FNwkSIntKey != nil && ctx.rejoinAnsPaylaod.SNwkSIntKey != nil && ctx.rejoinAnsPaylaod.NwkSEncKey != nil
+//@   ensures clear-as: err == nil && nokek(ctx.asKEKLabel, ctx.asKEK) ==> len(ctx.rejoinAnsPaylaod.AppSKey.AESKey) == 16 && forall k int :: 0 <= k && k < 16 ==> ctx.rejoinAnsPaylaod.AppSKey.AESKey[k] == ctx.appSKey[k]
+//@   ensures clear-ns: err == nil && nokek(ctx.nsKEKLabel, ctx.nsKEK) ==> forall k int :: 0 <= k && k < 16 ==> ctx.rejoinAnsPaylaod.FNwkSIntKey.AESKey[k] == ctx.fNwkSIntKey[k] && ctx.rejoinAnsPaylaod.SNwkSIntKey.AESKey[k] == ctx.sNwkSIntKey[k] && ctx.rejoinAnsPaylaod.NwkSEncKey.AESKey[k] == ctx.nwkSEncKey[k]
+//@   ensures label-as: err == nil && !nokek(ctx.asKEKLabel, ctx.asKEK) ==> ctx.rejoinAnsPaylaod.AppSKey.KEKLabel == ctx.asKEKLabel
+//@   ensures label-ns: err == nil && !nokek(ctx.nsKEKLabel, ctx.nsKEK) ==> ctx.rejoinAnsPaylaod.FNwkSIntKey.KEKLabel == ctx.nsKEKLabel && ctx.rejoinAnsPaylaod.SNwkSIntKey.KEKLabel == ctx.nsKEKLabel && ctx.rejoinAnsPaylaod.NwkSEncKey.KEKLabel == ctx.nsKEKLabel
+
+// request context: the DevNonce the keys and the join-accept MIC are computed over is the DevNonce of the
+// join-request, RJcount0 of a rejoin-request type 0 / 2, RJcount1 of a type 1; the join type is the one sent
+//@ func setJoinContext
+//@   props C16
+//@   requires ctx != nil
+//@   inlines (*PHYPayload).UnmarshalBinary
+//@   modifies ctx.phyPayload, ctx.netID, ctx.joinEUI, ctx.devEUI, ctx.joinType, ctx.devNonce
+//@   ensures deveui: err == nil ==> ctx.devEUI == ctx.joinReqPayload.DevEUI && ctx.joinType == 0xff
+//@   ensures devnonce: err == nil ==> istype(ctx.phyPayload.MACPayload, "*lorawan.JoinRequestPayload") && as(ctx.phyPayload.MACPayload, "*lorawan.JoinRequestPayload") != nil && ctx.devNonce == as(ctx.phyPayload.MACPayload, "*lorawan.JoinRequestPayload").DevNonce
+//@ func setRejoinContext
+//@   props C16
+//@   requires ctx != nil
+//@   inlines (*PHYPayload).UnmarshalBinary
+//@   modifies ctx.phyPayload, ctx.netID, ctx.joinEUI, ctx.devEUI, ctx.joinType, ctx.devNonce
+//@   ensures deveui: err == nil ==> ctx.devEUI == ctx.rejoinReqPayload.DevEUI
+//@   ensures type02: err == nil && istype(ctx.phyPayload.MACPayload, "*lorawan.RejoinRequestType02Payload") ==> uint16(ctx.devNonce) == as(ctx.phyPayload.MACPayload, "*lorawan.RejoinRequestType02Payload").RJCount0 && ctx.joinType == as(ctx.phyPayload.MACPayload, "*lorawan.RejoinRequestType02Payload").RejoinType
+//@   ensures type1: err == nil && istype(ctx.phyPayload.MACPayload, "*lorawan.RejoinRequestType1Payload") ==> uint16(ctx.devNonce) == as(ctx.phyPayload.MACPayload, "*lorawan.RejoinRequestType1Payload").RJCount1 && ctx.joinType == as(ctx.phyPayload.MACPayload, "*lorawan.RejoinRequestType1Payload").RejoinType
+//@   ensures typed: err == nil ==> istype(ctx.phyPayload.MACPayload, "*lorawan.RejoinRequestType02Payload") || istype(ctx.phyPayload.MACPayload, "*lorawan.RejoinRequestType1Payload")
